@@ -75,6 +75,23 @@ CHECKS = {
 
 NA_REASON = "not claimed"
 
+EXTRA_TRUST = {
+    "C02": "CubicSpline is a contract stub (values between knots unconstrained).",
+    "C05": "CubicSpline is a contract stub.",
+    "C07": "CubicSplineRFA is outside the claim (SciPy numerics).",
+    "C10": "Second engine (CrossHair, integers, short lists) agrees; float +-1 ulp cases are outside.",
+    "C13": "numpy.interp is modelled by its documented definition; CubicSpline / splrep+BSpline are recording contract stubs.",
+    "C15": "numpy.random.normal is a recording stub returning unconstrained reals; the statistical clause of the property is "
+           "outside the technique and not claimed.",
+    "C16": "splrep/BSpline are a recording contract stub: statements about the spline itself hold under the FITPACK contract "
+           "sum((w_i (g(x_i)-y_i))^2) <= s, which is an assumption.",
+    "C18": "Loaders are replaced by recorders (dispatch is decided, not loading); remote-metadata distinctness and the "
+           "bundled CSVs' well-formedness are concrete facts evaluated, not solver-decided.",
+    "C19": "File system, network, hashing, pickling and time are a model (symx/fsmodel.py): SHA-256 collision freedom, "
+           "POSIX rename atomicity, buffered writes flushed on close / release, unique temporary names; a kill is a "
+           "frozen file system; counterexamples are replayed on a real temporary directory.",
+}
+
 
 def main():
     props = [json.loads(l) for l in open(os.path.join(HERE, "properties.jsonl"))]
@@ -90,7 +107,7 @@ def main():
             "level_claimed": {"category": "model_checking",
                               "text": "Bounded symbolic model checking of the real code: " + text,
                               "design_ref": "DESIGN.md section " + ref},
-            "level_note": TRUST,
+            "level_note": TRUST + (" " + EXTRA_TRUST[pid] if pid in EXTRA_TRUST else ""),
             "technique": TECH,
         })
     m = {
@@ -103,7 +120,12 @@ def main():
                                       "--continue-on-collection-errors",
                   "source_commits": [], "add_only": True},
         "engines": [{"name": "symx", "path": "symx/", "serves_properties": sorted(CHECKS),
-                     "kind_free_text": "path-exploring symbolic executor for Python/NumPy over exact reals + z3"}],
+                     "kind_free_text": "path-exploring symbolic executor for Python/NumPy over exact reals + z3 (core.py, npx.py, "
+                                       "runner.py); symbolic strings (symstr.py); file-system model with fault oracle and "
+                                       "baton scheduler (fsmodel.py)"},
+                    {"name": "crosshair", "path": "checks/c10.py", "serves_properties": ["C10"],
+                     "kind_free_text": "crosshair-tool 0.0.110 on generated PEP-316 contracts over symbolic integers: second "
+                                       "engine for the pure-Python scans only"}],
         "checks": checks,
         "notes": "Every check is `./run <ID> <tier>`; it builds .venv from the offline wheelhouse if missing, imports "
                  "traffic_weaver from /repo/src (or $VERIF_REPO_SRC), and rewrites evidence/<ID>.json. Exit 0 = all "
